@@ -56,27 +56,31 @@ class C05(F.PropCheck):
         for n in conns:
             for (t, call, pay) in mon.server_frames([(t, b) for (t, cn, b) in rx if cn == n]): msgs.append((t, n, call, pay))
         msgs.sort(key=lambda m: m[0])
-        garbage = any(e[0] == 'RECV' for e in evs) and False
-        tau = msgs[-1][0] if msgs else 0
-        # a partial / malformed tail after the last complete message makes the device restart through the parser: not this property's business
         boot = cfg[0]; cycles = cfg[3] if len(cfg) > 3 else 0
-        # watchdog: restart once uptime_sec - last_response > 60 at a watchdog tick: no later than 62 s (+J) after tau
         wd = c['WATCHDOG_TIMEOUT_S']
-        lim_restart = tau + (wd + 2) * S + J
-        if tend >= lim_restart + 1 and not [t for t in restart_t if t <= lim_restart]:
-            # reconnects do not excuse the restart (last_response is not refreshed by them)
-            v.append('nothing received after %d us, no restart by %d us (watchdog bound %d s)' % (tau, lim_restart, wd + 2))
-        # reconnect: registered with granted timeout T at tau
-        st = self.session_at(msgs, tau, conns, outs)
-        if st is not None:
-            n, T = st
-            if 0 < T and T + 11 <= wd + 2:
-                lim = tau + (T + 11) * S + J
-                if tend >= lim + 1:
-                    d = [t for t in disc_t if tau < t <= lim]; w = [t for t in wifi_t if tau < t <= lim]
-                    early_restart = [t for t in restart_t if t <= lim]
-                    if not early_restart and (not d or not w):
-                        v.append('registered with timeout %d s, nothing received after %d us, connection not closed and reconnect not started by %d us' % (T, tau, lim))
+        # every silence is judged: after each complete message (and after start-up, last_response = uptime at boot) until the next one
+        # (a partial / malformed tail after a complete message makes the device restart through the parser: not this property's business)
+        marks = [(0, -1)] + [(m[0], i) for i, m in enumerate(msgs)]
+        for idx, (tau, k) in enumerate(marks):
+            nxt = marks[idx + 1][0] if idx + 1 < len(marks) else None
+            if nxt is not None and nxt == tau: continue
+            horizon = nxt if nxt is not None else tend + 1        # the silence is known to last until here
+            # watchdog: restart once uptime_sec - last_response > 60 at a watchdog tick: no later than 62 s (+J) after tau
+            lim_restart = tau + (wd + 2) * S + J
+            if horizon > lim_restart + (0 if nxt is not None else 0) and not [t for t in restart_t if t <= lim_restart]:
+                # reconnects do not excuse the restart (last_response is not refreshed by them)
+                v.append('nothing received after %d us, no restart by %d us (watchdog bound %d s)' % (tau, lim_restart, wd + 2)); break
+            # reconnect: registered with granted timeout T at tau
+            st = self.session_at(msgs[:k + 1], tau, conns, outs) if k >= 0 else None
+            if st is not None:
+                n, T = st
+                if 0 < T and T + 11 <= wd + 2:
+                    lim = tau + (T + 11) * S + J
+                    if horizon > lim:
+                        d = [t for t in disc_t if tau < t <= lim]; w = [t for t in wifi_t if tau < t <= lim]
+                        early_restart = [t for t in restart_t if t <= lim]
+                        if not early_restart and (not d or not w):
+                            v.append('registered with timeout %d s, nothing received after %d us, connection not closed and reconnect not started by %d us' % (T, tau, lim)); break
         # --- keep-alive clause: intervals in which the device is registered, T in 10..50, the link is healthy and every ping is answered promptly
         v += self.keepalive(case, outs, msgs, conns, J)
         return v
@@ -212,7 +216,26 @@ class C05(F.PropCheck):
             if aged: return [('WIFI', [5], b''), ('ADV', [200000], b''), ('CONNCB', [], b''), ('RECV', [], reg_result(3, T, 1))] + \
                             ([('ADV', [150000], b''), ('RECV', [], sat_result(T if grant is None else grant, 2))] if T != 10 else [])
             return self.up_and_register(rng, T, grant)
-        if k < 0.45:
+        if k < 0.22 and not aged:
+            # two interruptions in sequence: silence (or the server closes the socket), recovery and re-registration, second silence 5..70 s later:
+            # the T+11 s bound must hold after EACH silence (next_wd_soft_timeout_challenge must not rate-limit the activity-timeout reconnect)
+            T = rng.choice([10, 10, 15, 20, 30, 40, 50, rng.randrange(10, 51)]); tags.add('multi-outage'); tags.add('T<=50')
+            d = rng.choice([0, 100000, 500000])
+            evs.append(('SERVER', [d], b'')); evs += reg(T)
+            evs += self.local_traffic(rng, rng.choice([2, 6, 12]) * S, rng.choice(['none', 'periodic']))
+            for outage in range(rng.choice([2, 2, 3])):
+                if outage > 0 or rng.random() < 0.6:
+                    tags.add('outage:silence'); evs.append(('SERVER', [-1], b''))
+                    evs += self.local_traffic(rng, (T + 13) * S, rng.choice(['none', 'none', 'periodic']))
+                else:
+                    tags.add('outage:server-closed'); evs += [('DISCCB', [], b''), ('ADV', [2300000], b'')]
+                if outage == 2 or (outage == 1 and rng.random() < 0.4): break
+                evs += [('SERVER', [d], b''), ('ADV', [300000], b''), ('WIFI', [5], b''), ('ADV', [rng.choice([250000, 400000])], b''), ('CONNCB', [], b''),
+                        ('ADV', [rng.choice([100000, 300000])], b''), ('RECV', [], reg_result(3, T, 1))]
+                if T != 10: evs += [('ADV', [150000], b''), ('RECV', [], sat_result(T, 2))]
+                evs += self.local_traffic(rng, rng.choice([5, 8, 15, 25, 40, 55, 70]) * S + rng.randrange(0, S), rng.choice(['none', 'periodic', 'random']))
+            evs += self.local_traffic(rng, rng.choice([3, 20]) * S, 'none')
+        elif k < 0.45:
             T = rng.choice([10, 10, 11, 15, 20, 30, 45, 50, rng.randrange(10, 51)]); tags.add('keepalive'); tags.add('T<=50')
             evs.append(('SERVER', [rng.choice([0, 1000, 50000, 300000, 600000, 900000, 999000])], b''))
             evs += reg(T)
